@@ -100,7 +100,12 @@ def flatten(text, directory, files, defined=None, depth=0):
                 raise Malformed("endif without if")
             open_cond["lines"].append(raw)
             if open_cond["directive"]:
-                out.extend(x for kind, x in open_cond["body"] if kind == "kept")
+                # included content of active includes is inlined (unguarded, as the condition holds); the data lines of the
+                # conditional stay guarded by it
+                out.extend(x for kind, x in open_cond["body"] if kind == "included")
+                data = [x for x in open_cond["lines"]]
+                if any(not y.strip().startswith("#") and y.strip() for y in data):
+                    out.extend(data)
             else:
                 out.extend(open_cond["lines"])
             open_cond = None
@@ -116,7 +121,7 @@ def flatten(text, directory, files, defined=None, depth=0):
                     raise Malformed("missing include %s" % path)
                 sub = flatten(files[path], os.path.dirname(path), files, defined, depth + 1)
                 if open_cond is not None:
-                    open_cond["body"].extend(("kept", x) for x in sub)
+                    open_cond["body"].extend(("included", x) for x in sub)
                 else:
                     out.extend(sub)
             continue
@@ -180,9 +185,8 @@ T_ALPHA = sorted(SLOTS)
                     "data lines that continue a section across an #include", "the GROMACS include search path"],
            cfg={"path_timeout_s": 60},
            bounds={"quick": dict(k=3, alpha=Q_ALPHA, mollists=[[("MA", 1)], [("MA", 2), ("MB", 1), ("MA", 1)], [("MC", 1), ("MA", 0), ("MB", 2)]]),
-                   "thorough": dict(k=4, alpha=T_ALPHA, mollists=[[("MA", 1)], [("MA", 2), ("MB", 1), ("MA", 1)], [("MC", 1), ("MA", 0), ("MB", 2)],
-                                                                 [("MB", 3)], [("MC", 2), ("MC", 1)]])},
-           budget={"quick": 280, "thorough": 1500})
+                   "thorough": dict(k=4, alpha=Q_ALPHA, mollists=[[("MA", 2), ("MB", 1), ("MA", 1)], [("MC", 1), ("MA", 0), ("MB", 2)]])},
+           budget={"quick": 280, "thorough": 2400})
 def flatten_cond(sx, B):
     """Real Topology.from_gmx_topfile on a .top assembled from k solver-chosen lines (defines, conditionals, includes of a nested
     include tree, #error, comments, an inline moleculetype, a guarded type-table entry) followed by a solver-chosen [ molecules ] list,
@@ -209,6 +213,16 @@ def flatten_cond(sx, B):
     for n in sorted(needed - have):
         pre += {"MA": '#include "a.itp"\n', "MB": '#include "sub/b.itp"\n', "MC": INLINE_MC}[n]
     text = head + body + "\n" + pre + tail
+    # derived fact for the known-finding region: an open conditional encloses the header of the inline moleculetype
+    open_c, spans = False, 0
+    for sl in slots:
+        if sl in ("ifdef X", "ifndef X", "ifdef Y"):
+            open_c = True
+        elif sl == "endif":
+            open_c = False
+        elif sl == "inline MC" and open_c:
+            spans = 1
+    sx.tag("conditional_spans_inline_moleculetype", spans)
     d = tempfile.mkdtemp(prefix="pverif_", dir=os.environ.get("TMPDIR"))
     try:
         write_tree(d, FILES)
